@@ -20,7 +20,7 @@ def one(d):
         except Exception:
             continue
         if "check" in j:
-            res.append((j["check"], j.get("detected"), j.get("monitor_sigs"), [b[0] for b in j.get("broken_obligations", [])]))
+            res.append((j["check"], j.get("exit") == 1 and bool(j.get("violation_lines")), j.get("sigs"), [b[0] if isinstance(b, list) else str(b)[:40] for b in j.get("broken", [])]))
         elif "error" in j:
             res.append(("?", False, [j["error"]], []))
     return sid, res
